@@ -1,4 +1,5 @@
 import DW.Driver.Codec
+import DW.Model.LoadV1
 
 namespace DW.Driver
 open Lean DW
@@ -31,6 +32,14 @@ def handleLoad (j : Json) : D Json := withStd j fun std => do
   let ty ← tyOf (← j.getObjVal? "ty")
   let doc ← jvalOf (← j.getObjVal? "doc")
   match fromdict std ty doc with
+  | .ok v => pure (Json.mkObj [("ok", pyvalJ v)])
+  | .error e => pure (Json.mkObj [("err", lerrJ e)])
+
+/-- {"op":"loadv1","ty":<cls type>,"doc":<jval>,"std":{..}} -/
+def handleLoadV1 (j : Json) : D Json := withStd j fun std => do
+  let ty ← tyOf (← j.getObjVal? "ty")
+  let doc ← jvalOf (← j.getObjVal? "doc")
+  match fromdictV1 std ty doc with
   | .ok v => pure (Json.mkObj [("ok", pyvalJ v)])
   | .error e => pure (Json.mkObj [("err", lerrJ e)])
 
